@@ -97,8 +97,15 @@ func Inject(r *rand.Rand, c *cfg.Config, kind string, n int) {
 		}
 	case "scope":
 		a, b := fmt.Sprintf("shA%d", n), fmt.Sprintf("ctxB%d", n)
+		args := []cfg.Val{cfg.Str("@" + b)}
+		switch r.Intn(4) {
+		case 0: // an undefined dependency next to the contextual one, sorting before it
+			args = append([]cfg.Val{cfg.Str(fmt.Sprintf("@aaaMissing%d", n))}, args...)
+		case 1: // ... sorting after it
+			args = append(args, cfg.Str(fmt.Sprintf("@zzzMissing%d", n)))
+		}
 		c.Services = append(c.Services,
-			cfg.Service{Name: a, Constructor: cfg.P(`"fixt/pa".New`), Args: []cfg.Val{cfg.Str("@" + b)}, Scope: cfg.P("shared")},
+			cfg.Service{Name: a, Constructor: cfg.P(`"fixt/pa".New`), Args: args, Scope: cfg.P("shared")},
 			cfg.Service{Name: b, Constructor: cfg.P(`"fixt/pa".New`), Scope: cfg.P("contextual")})
 	case "grammar":
 		switch r.Intn(4) {
